@@ -29,6 +29,10 @@ func (ck *AlternativesChecker) Check(lines *Lines, pkg *Package) {
 	for _, line := range lines.Lines {
 		ck.checkLine(line, plistFiles, pkg)
 	}
+
+	if G.Logger.Opts.Autofix {
+		SaveAutofixChanges(lines)
+	}
 }
 
 // checkLine checks a single line for the following format:
